@@ -1,5 +1,5 @@
 (* C17: reported statistics describe the stored key set. *)
-From X Require Import Base Arr Dac Trie Spec Wf IfaceQuery All Examples ExampleFacts.
+From X Require Import Builder IfaceBuild Base Arr Dac Trie Spec Wf IfaceQuery All AllBuild Examples ExampleFacts.
 Local Open Scope N_scope.
 
 Theorem C17_statistics : forall v L P K, wf_for v L P K ->
@@ -13,7 +13,16 @@ Proof. exact stats_thm. Qed.
 Theorem C17_bin_mode : forall v L P K, wf_for v L P K -> t_bin_mode P = lg_bin L.
 Proof. intros v L P K H. exact (ph_bin L P (phys_thm v L P K H)). Qed.
 
+(* headline: for EVERY valid key list, incl. bin_mode = requested or some key contains a NUL byte *)
+Theorem C17_for_all_valid_K : forall v tbl K req, valid_keys K = true -> small_keys K -> perm_okb tbl = true ->
+  exists P, build v tbl K req = Ok P /\
+  t_num_keys P = lenN K /\ t_max_length P = spec_max_length K /\ t_alphabet_size P = lenN (spec_alphabet K) /\
+  t_bin_mode P = spec_bin_mode req K /\
+  t_num_nodes P + t_num_free_units P = t_num_units P /\ t_num_nodes P = spec_mp_nodes K /\ 1 <= t_tail_length P.
+Proof. exact headline_stats. Qed.
+
 Example C17_nonvacuous : forall v, exists L P, ex_logical v = Ok L /\ wf_for v L P ex_keys.
 Proof. exact ex_wf_for. Qed.
 
 Print Assumptions C17_statistics. Print Assumptions C17_bin_mode.
+Print Assumptions C17_for_all_valid_K.
